@@ -173,6 +173,7 @@ func checkC11(c *Ctx) {
 	checkFoldedPatterns(c, "C11.R5.versioned-packages", gen)
 	checkVersionedImports(c, "C11.R5.versioned-imports", gen)
 	checkExternalRecognised(c, "C11.R6.external-recognised", gen)
+	checkImportsExplicit(c, "C11.R4.imports-explicit", gen)
 }
 
 func checkConfigureWiring(c *Ctx, gen, cmd *packages.Package) {
@@ -527,6 +528,37 @@ func checkExternalRecognised(c *Ctx, rule string, gen *packages.Package) {
 		c.Check(okCond, rule, fmt.Sprintf("generator.hasExternalType › answers false #%d", n), c.posOf(gen, ret.Pos()), "under "+got,
 			fmt.Sprintf("hasExternalType answers false under [%s]: beyond an absent extension and a failed lenient decode, a definition with x-go-type is treated as a model to generate and the user's file is overwritten", got))
 	})
+	// the single-definition entry point renders only what is not external
+	if dg := load.FuncDecl(gen, "definitionGenerator.Generate"); dg == nil {
+		c.Anchor(rule, "generator.definitionGenerator.Generate", "not found")
+	} else {
+		found := false
+		goan.WalkGuards(info, dg.Body, func(leaf ast.Node, guards []goan.Lit, _ []ast.Stmt) {
+			ast.Inspect(leaf, func(n ast.Node) bool {
+				call, ok := n.(*ast.CallExpr)
+				if !ok {
+					return true
+				}
+				fn := goan.Callee(info, call)
+				if fn == nil || (fn.Name() != "generateModel" && fn.Name() != "renderDefinition") {
+					return true
+				}
+				found = true
+				guarded := false
+				for _, g := range guards {
+					if g.Tag == nil && !g.NonEmpty && !g.Pos && goan.LastSel(g.E) == "External" {
+						guarded = true
+					}
+				}
+				c.Check(guarded, rule, "generator.definitionGenerator.Generate › renders only when not External", c.posOf(gen, call.Pos()), "under !External",
+					"GenerateDefinition renders a definition without testing GenDefinition.External: a definition with x-go-type is written over the file the user provides for it")
+				return true
+			})
+		})
+		if !found {
+			c.Anchor(rule, "generator.definitionGenerator.Generate › render call", "no call to generateModel / renderDefinition")
+		}
+	}
 	// isExternal
 	if ie := load.FuncDecl(gen, "isExternal"); ie == nil {
 		c.Anchor(rule, "generator.isExternal", "not found")
